@@ -195,6 +195,23 @@ theorem decodeField_leaf (S : Schema) (E : Enums) (f : FieldD) (j : JVal) (h : i
     decodeField S E f j = decScalarItem E f j := by
   cases j <;> simp [isLeafJ] at h <;> simp [decodeField, hm, hmap]
 
+/-- what `to_dict` does with a singular scalar field: written iff it differs from the default or
+    is the selected oneof member (a proto3-optional member never equals its default None) -/
+theorem toDictSlot_scalar (S : Schema) (E : Enums) (cs : KeyCase) (f : FieldD) (sel : Bool) (v : Val)
+    (hm : (f.ty == .message) = false) (hmap : (f.ty == .map) = false) (hr : f.repeated = false)
+    (hv : valOfType f.ty v = true) :
+    toDictSlot S E cs false f false sel v
+      = if !eqDefault S f.defKind v || sel then some (encItem E f v) else Option.none := by
+  have hl : isLeafVal v = true := by
+    rcases valOfType_cases _ _ hv with ⟨i, rfl⟩ | ⟨b, rfl, _⟩ | ⟨b, rfl, _⟩ | ⟨b, rfl, _⟩ | ⟨s, rfl, _⟩ | ⟨s, rfl, _⟩ <;> rfl
+  rw [toDictSlot_leaf _ _ _ _ _ _ _ _ hl]
+  simp only [Bool.false_eq_true, if_false, toDictPlain, hm, hmap, Bool.or_false]
+  have henc : encScalar E f false v = some (encItem E f v) := by
+    unfold encScalar encItem
+    rcases valOfType_cases _ _ hv with ⟨i, rfl⟩ | ⟨b, rfl, _⟩ | ⟨b, rfl, _⟩ | ⟨b, rfl, _⟩ | ⟨s, rfl, _⟩ | ⟨s, rfl, _⟩ <;>
+      simp [hr] <;> (repeat' split) <;> rfl
+  rw [henc]
+
 /-- singular scalar field (every scalar type; plain, proto3-optional or oneof member) -/
 theorem fieldRT_scalar (S : Schema) (E : Enums) (cs : KeyCase) (f : FieldD) (sel : Bool) (v : Val)
     (hm : (f.ty == .message) = false) (hmap : (f.ty == .map) = false) (hr : f.repeated = false)
